@@ -11,6 +11,11 @@ checks = {
    technique="bounded-exhaustive model checking: every (start,limit,step) triple of a boundary lattice x loop shape, run on the real compiler+VM, compared with a reference of manual §3.3.5 using exact big-number arithmetic",
    text="All triples over a 30-value lattice (integers around 0, 2^53, min/maxinteger; floats incl. signed zero, 2^53, +-2^63, 1e308, +-inf, NaN; numeric strings; non-numbers) x 6 loop shapes are executed and compared event by event (value and math.type of the loop variable for the first 6 iterations, number of iterations, error or not, single evaluation of the control expressions) with a golua-independent reference. Exhaustive within that bound; nothing sampled.",
    note="Trusted: the reference loop semantics typed from the manual; Go float64 arithmetic; triples the manual leaves open are skipped and counted as skipped."),
+ "C02": dict(
+   level="model_checking", design="§4 C02",
+   technique="bounded-exhaustive model checking: all operators x all ordered pairs of a boundary lattice through three evaluation paths, all numeral strings up to a length bound, against a big-number reference (refnum)",
+   text="Every binary/unary operator on every ordered pair of a 46..83-value int/float lattice (plus string and non-number operands) is evaluated through Lua with argument operands, Lua with literal operands and the exported Go functions and compared with refnum (math/big modulo 2^64, exact rational comparison); order laws (trichotomy, transitivity) on all pairs/triples; every string of length <= 5 (quick) / 6 (thorough) over the numeral alphabet plus a curated list through tonumber, string arithmetic and as a source literal; math.abs/floor/ceil/modf/tointeger/type/fmod/ult/max/min over the lattice; tonumber(s, base) for every base x every string of length <= 3. Exhaustive within these bounds.",
+   note="Trusted: refnum (Go float64 = IEEE binary64, math/big, strconv.ParseFloat correctly rounded). Skipped as unspecified: operands whose int->float conversion is inexact, inexact powers, bitwise operators on strings, signs with an explicit base, string collation."),
 }
 not_yet = {}
 m = {
